@@ -8,7 +8,7 @@ import sessioncheck
 import matchgen
 
 INFO = {
-    'proof_files': ['Proofs/GdbProofs.v', 'Proofs/ControllerProofs.v'],
+    'proof_files': ['Proofs/GdbProofs.v', 'Proofs/ControllerProofs.v', 'Proofs/HaltRuns.v'],
     'assumptions': [
         'theorems are about WD.Session (gdb_message / gdb_command / run_command / ui_loop); tied to backends/gdb_plugin/plugin.py, PersistentUIState, Controller and TerminalUI by driving the REAL Plugin under harness/fakegdb (the breakpoints\' own stop() methods are called; only the message extractor is scripted) and comparing the value returned by stop(), the `continue`/`quit` executed after each command, the Stopped notices, and the prompt count of TerminalUI.run_until_stopped',
         'GDB\'s Python API is replaced by harness/fakegdb (Breakpoint/Command registries, execute, selected_thread)',
